@@ -199,6 +199,14 @@ def gen_raw(rng, thorough, plate=False):
     nf = len(factors)
     allv = sorted({v for f in factors for v in f})
     init = [[[v, hx(rmean(rng)), hx(rsigma(rng))] for v in f] for f in factors]
+    if rng.random() < 0.25:
+        # EPMeanField.from_approx_dists: every factor starts from (a copy of) one message per variable
+        one = {}
+        for f in init:
+            for v, mu, sg in f:
+                one.setdefault(v, [v, mu, sg])
+        init = [[list(one[v]) for v, _, _ in f] for f in init]
+        meta = dict(meta, fad=True)
     sim = Sim([{v: natf(unhex(mu), unhex(sg)) for v, mu, sg in f} for f in init])
     base = sim.copy()
     steps = []
@@ -486,12 +494,29 @@ def near(a, b, mag):
     return abs(a[0] - b[0]) <= RTOL * (1 + mag) and abs(a[1] - b[1]) <= RTOL * (1 + mag)
 
 
+_HW = {}   # per case, per variable: the largest magnitude of that variable's messages seen so far
+
+
+class VMag:
+    def __getitem__(self, v):
+        return _HW.get(v, 0.0)
+
+
+def reset_hw():
+    _HW.clear()
+
+
 def magnitude(*maps):
-    m = 0.0
+    """per-variable tolerance base: natural parameters of different variables never mix, so every
+    comparison is relative to the (high-water) magnitude of the messages of THAT variable"""
+    cur = {}
     for mp in maps:
-        for x in mp.values():
-            m += abs(x[0]) + abs(x[1])
-    return m
+        for v, x in mp.items():
+            cur[v] = cur.get(v, 0.0) + abs(x[0]) + abs(x[1])
+    for v, x in cur.items():
+        if x > _HW.get(v, 0.0):
+            _HW[v] = x
+    return VMag()
 
 
 def fsum(maps, v):
@@ -513,15 +538,15 @@ def check_identities(state, i, cav, own, model, glob, where):
     if set(own) != set(state[i]):
         return "%s: factor_dist has variables %s, state has %s" % (where, sorted(own), sorted(state[i]))
     for v in own:
-        if not near(own[v], state[i][v], mag):
+        if not near(own[v], state[i][v], mag[v]):
             return "%s: factor_dist of variable %d is not the factor's message" % (where, v)
         exp_c = fsum([m for j, m in enumerate(state) if j != i], v)
         if (exp_c is None) != (v not in cav):
             return "%s: cavity of variable %d %s" % (where, v, "missing" if v not in cav else "present without other factors")
-        if exp_c is not None and not near(cav[v], exp_c, mag):
+        if exp_c is not None and not near(cav[v], exp_c, mag[v]):
             return "%s: cavity of variable %d is not the product of the other factors' messages" % (where, v)
         exp_m = own[v] if exp_c is None else (own[v][0] + cav[v][0], own[v][1] + cav[v][1])
-        if v not in model or not near(model[v], exp_m, mag):
+        if v not in model or not near(model[v], exp_m, mag[v]):
             return "%s: model distribution of variable %d is not message * cavity" % (where, v)
     if set(cav) - set(own) or set(model) != set(own):
         return "%s: cavity/model distribution over foreign variables" % where
@@ -530,9 +555,9 @@ def check_identities(state, i, cav, own, model, glob, where):
         if set(glob) != allv:
             return "%s: global approximation over %s, expected %s" % (where, sorted(glob), sorted(allv))
         for v in allv:
-            if not near(glob[v], fsum(state, v), mag):
+            if not near(glob[v], fsum(state, v), mag[v]):
                 return "%s: global approximation of variable %d is not the product of all factor messages" % (where, v)
-            if v in own and not near(glob[v], model[v], mag):
+            if v in own and not near(glob[v], model[v], mag[v]):
                 return "%s: model distribution of variable %d differs from the global approximation" % (where, v)
     return None
 
@@ -575,24 +600,24 @@ def check_update(step, i, cav, own, new, msg, glob_before, glob_after, success, 
         proper = exp[1] < 0
         all_ok = all_ok and proper
         if not proper:
-            if v in own and (v not in msg or not near(msg[v], own[v], mag)):
+            if v in own and (v not in msg or not near(msg[v], own[v], mag[v])):
                 bad.append(tag)
                 first = first or "%s: improper projection of variable %d did not keep the previous message" % (where, v)
             continue
-        if v not in msg or not near(msg[v], exp, mag):
+        if v not in msg or not near(msg[v], exp, mag[v]):
             # the known per-variable-delta-one defect leaves the old message in place; anything else is untagged
-            kept = v in msg and v in own and near(msg[v], own[v], mag) and not success
+            kept = v in msg and v in own and near(msg[v], own[v], mag[v]) and not success
             bad.append(tag if kept else ("wrong-message",))
             first = first or "%s: new message of variable %d is not new/cavity (delta %s)" % (where, v, d)
             continue
         if fresh and v in own:
-            if d >= 1 and not near(glob_after[v], new[v], mag):
+            if d >= 1 and not near(glob_after[v], new[v], mag[v]):
                 bad.append(tag)
                 first = first or "%s: after a full update the global approximation of variable %d is not the fitted distribution" % (where, v)
             if d < 1 and v in glob_before:
                 gb = glob_before[v]
                 expg = (d * new[v][0] + (1 - d) * gb[0], d * new[v][1] + (1 - d) * gb[1])
-                if not near(glob_after[v], expg, mag):
+                if not near(glob_after[v], expg, mag[v]):
                     bad.append(tag)
                     first = first or "%s: damped update of variable %d does not interpolate the global approximation" % (where, v)
     if set(msg) != set(new):
@@ -606,21 +631,43 @@ def check_update(step, i, cav, own, new, msg, glob_before, glob_after, success, 
 
 def oracle_raw(c, r):
     fails = []
+    reset_hw()
     state = [dmap(m) for m in r["state0"]]
     g0 = dmap(r["global0"])
     if not finite(*state):
         return [("non-finite initial state", [])]
     for i, m in enumerate(state):
         for v, mu, sg in c["init"][i]:
-            if not near(m[v], fnat(unhex(mu), unhex(sg)), magnitude(m)):
+            if not near(m[v], fnat(unhex(mu), unhex(sg)), magnitude(m)[v]):
                 fails.append(("initial message is not the given Normal", []))
     allv = {v for m in state for v in m}
     for v in allv:
-        if v not in g0 or not near(g0[v], fsum(state, v), magnitude(*state)):
+        if v not in g0 or not near(g0[v], fsum(state, v), magnitude(*state)[v]):
             fails.append(("initial global approximation of variable %d is not the product of all factor messages" % v, []))
     base = state
+    # which MeanField object every retained EPMeanField object holds per factor (version numbers), from the case:
+    # project / whole-factor write give the CURRENT object a fresh MeanField, an indexed write mutates the one it has
+    nfac = len(state)
+    objs = [[0] * nfac]
+    cur, fresh = 0, 1
     for k, (s, o) in enumerate(zip(c["steps"], r["steps"])):
         where = "step %d (factor %d)" % (k, s["f"])
+        sharing = []
+        if s["via"].startswith("inplace"):
+            if s.get("index") is None:
+                objs[cur][s["f"]] = fresh
+            else:
+                sharing = [j for j, ob in enumerate(objs) if j != cur and ob[s["f"]] == objs[cur][s["f"]]]
+        else:
+            objs.append(list(objs[cur]))
+            cur = len(objs) - 1
+            objs[cur][s["f"]] = fresh
+        fresh += 1
+        if o["retained_changed"]:
+            known = s["via"].startswith("inplace") and s.get("index") is not None \
+                and all(j in sharing for j in o["retained_changed"])
+            fails.append((where + ": approximations produced earlier (objects %s) changed their messages afterwards"
+                          % o["retained_changed"], [("alias-index-write",)] if known else []))
         if s.get("barrier"):
             base = state
         src = base if s.get("stale") else state
@@ -650,7 +697,7 @@ def oracle_raw(c, r):
             # plate elements kept), and EVERY later read reflects the current factor messages
             expect = dict(new) if s.get("index") is None else {**state[s["f"]], **new}
             mg = magnitude(expect, msg)
-            if set(expect) != set(msg) or any(not near(msg[v], expect[v], mg) for v in expect):
+            if set(expect) != set(msg) or any(not near(msg[v], expect[v], mg[v]) for v in expect):
                 fails.append((where + ": in-place update did not store the written messages", []))
             for j, pa in enumerate(o["post"]):
                 m = check_identities(after, j, dmap(pa["cavity"]), dmap(pa["own"]), dmap(pa["model"]), glob,
@@ -780,6 +827,7 @@ def oracle_run(c, r, run, nf, state0, parallel, where0):
 
 
 def oracle_par(c, r):
+    reset_hw()
     state0 = [dmap(m) for m in r["state0"]]
     nf = len(state0)
     run = {"order": c["order"], "max_steps": c["max_steps"], "stop": None, "delta": c["delta"], "scripts": c["scripts"]}
@@ -822,11 +870,12 @@ def margins_ok(c, order):
 
 def oracle_decl(c, r):
     fails = []
+    reset_hw()
     fs, gf, include = decl_graph(c)
     state0 = [dmap(m) for m in r["state0"]]
     pri = dmap(r["prior_nat"])
     for v, (mu, sg) in enumerate(c["priors"]):
-        if not near(pri[v], fnat(unhex(mu), unhex(sg)), magnitude(pri)):
+        if not near(pri[v], fnat(unhex(mu), unhex(sg)), magnitude(pri)[v]):
             fails.append(("prior message of variable %d is not the user's prior" % v, []))
     if [sorted(m) for m in state0] != gf:
         fails.append(("graph factors have variables %s, expected %s" % ([sorted(m) for m in state0], gf), []))
@@ -850,12 +899,12 @@ def oracle_decl(c, r):
                 # known: no prior factors and a single owner -> nothing to multiply
                 fails.append(("initial cavity of factor %d has no distribution for variable %d (prior ignored)" % (i, v),
                               [("init-missing", v)] if owners == 1 else [("wrong-cavity",)]))
-            elif not near(cav[v], pri[v], mag):
+            elif not near(cav[v], pri[v], mag[v]):
                 # known: exponent 1/(occurrences-1) on each of the other (owners-1) messages
                 k = (owners - 1) / (occs - 1) if occs > 1 else float(owners - 1)
                 defect = (k * pri[v][0], k * pri[v][1])
                 fails.append(("initial cavity of factor %d for variable %d is not the user's prior" % (i, v),
-                              [("init-power", v)] if near(cav[v], defect, mag) else [("wrong-cavity",)]))
+                              [("init-power", v)] if near(cav[v], defect, mag[v]) else [("wrong-cavity",)]))
     run = c.get("run")
     if run:
         run = dict(run, order=run_order(c, r))
@@ -922,6 +971,8 @@ def classify(c, tagged):
                 return []
         elif t[0] == "latest_result":
             labels.add("latest-result-after-two-successes")
+        elif t[0] == "alias-index-write":
+            labels.add("indexed-inplace-write-after-project")
         elif t[0] == "delta":
             # per-variable damping (a MeanField of deltas, as DynamicUpdater passes) with delta exactly 1
             if t[1] in ("dynamic", "pervar") and t[2] == 1.0:
